@@ -26,6 +26,8 @@ for k in sorted(keys):
         continue
     p = found[k]
     n += 1
+    while f'{pid}-K{n}' in {f['id'] for f in kf['findings']}:
+        n += 1
     kf['findings'].append({'id': f'{pid}-K{n}', 'property': pid, 'key': k, 'status': 'open',
                            'what': p['detail'][:400], 'witness': p['replay'], 'check': p['obligation']})
     print('added', f'{pid}-K{n}', k, '|', p['detail'][:140])
